@@ -276,6 +276,13 @@ func famJSON(dir string, seed int64, tier string) {
 	rep := newReport("json", seed, tier)
 	rep.Rule = "JSON documents generated type-first from a recursive grammar (depth<=5: bool, all integer and float widths, strings with escapes and non-ASCII, slices, structs with absent / unknown / permuted members, pointers, nulls; numbers at the range boundaries of every width, fractional and exponent forms) rendered with random whitespace; documents cut after k tokens; syntactically broken documents (Go oracle only); non-trivial = at least 3 tokens; distinct by case text"
 	w := newCaseWriter(dir, "json", "Corr_json", "json_case", "check_json", 150, rep)
+	wJ := newCaseWriter(dir, "jdec", "Corr_json", "jdec_case", "check_jdec", 200, rep)
+	sobs := func(v reflect.Value, e error) string {
+		if e != nil {
+			return "SErr"
+		}
+		return "(SOk " + coqGval(v) + ")"
+	}
 	r := newRand(seed, "json")
 	n := 500
 	if thorough {
@@ -321,6 +328,8 @@ func famJSON(dir string, seed int64, tier string) {
 			if keep < 0 {
 				ref := reflect.New(t)
 				eJ := json.Unmarshal([]byte(text), ref.Interface())
+				// the reference semantics on the document (Spec/JsonDecode.v) against the real encoding/json
+				wJ.add(fmt.Sprintf("JdecCase %s %s %s %s", doc.coq(), tyS, floatTable(ts), sobs(ref.Elem(), eJ)), "jdec: "+desc, len(fs) >= 3)
 				if (eJ == nil) != (eU == nil) {
 					rep.violate("C20", "differs-from-encoding-json", fmt.Sprintf("sb: %v; encoding/json: %v", eU, eJ), desc)
 				} else if eJ == nil && !equivValues(ref.Elem(), back) {
@@ -352,6 +361,7 @@ func famJSON(dir string, seed int64, tier string) {
 				rep.violate("C20", "differs-from-encoding-json", fmt.Sprintf("sb gives %v, encoding/json gives %v", safeFormat(back), safeFormat(ref.Elem())), desc)
 			}
 			w.add(fmt.Sprintf("JsonCase %s None %s %s %s %s %s", doc.coq(), coqTokens(ts), classOf(err), coqTy(t), floatTable(ts), uobs(back, eU)), desc, true)
+			wJ.add(fmt.Sprintf("JdecCase %s %s %s %s", doc.coq(), coqTy(t), floatTable(ts), sobs(ref.Elem(), eJ)), "jdec: "+desc, true)
 		}
 	}
 	// one JSON stream fanned out to several consumers: every consumer must see the document as if alone
@@ -431,6 +441,7 @@ func famJSON(dir string, seed int64, tier string) {
 		}
 	}
 	w.flush()
+	wJ.flush()
 	jsonEmbedded(rep)
 	jsonEmbeddedPtr(rep)
 	rep.write(dir)
